@@ -297,15 +297,26 @@ class KernelMeaning(Contract):
     def run(self, h, inst):
         import loopy as lp
         prog = inst["prog"]
-        T = taggers("thorough" if inst["tagging"].startswith("combo:")
-                    else "quick", NPOS[prog])[inst["tagging"]]
-        ref = PROGRAMS[prog](lambda k, x: x)         # untagged program
-        if prog == "calls":
-            # meaning of a program with calls = meaning of the program with
-            # the calls inlined (the inliner is under contract in C12)
-            rd = pt.inline_calls(pt.make_dict_of_named_arrays(ref))
-            ref = {k: rd[k].expr for k in rd}
-        tagged = PROGRAMS[prog](T)
+        if prog.startswith("random:"):
+            seed = int(prog.split(":")[1])
+            T = (lambda k, x: x) if inst["tagging"] == "none" else \
+                random_tagger(int(inst["tagging"].split(":")[1]), "quick")
+            # (as code generation expects: de-duplicated programs)
+            def dd(d):
+                r = pt.transform.deduplicate(pt.make_dict_of_named_arrays(d))
+                return {k: r[k].expr for k in r}
+            ref = dd(random_program(seed, lambda k, x: x))
+            tagged = dd(random_program(seed, T))
+        else:
+            T = taggers("thorough" if inst["tagging"].startswith("combo:")
+                        else "quick", NPOS[prog])[inst["tagging"]]
+            ref = PROGRAMS[prog](lambda k, x: x)         # untagged program
+            if prog == "calls":
+                # meaning of a program with calls = meaning of the program
+                # with the calls inlined (the inliner is under contract, C12)
+                rd = pt.inline_calls(pt.make_dict_of_named_arrays(ref))
+                ref = {k: rd[k].expr for k in rd}
+            tagged = PROGRAMS[prog](T)
         # the two programs are over *equal* inputs: identify them by name
         try:
             bp = h.call(pt.generate_loopy, tagged)
@@ -506,3 +517,139 @@ if o1 != o2:
             reproduced(f"kernels differ for output orders {{names}} / {{names2}}:\\n  {{x!r:.300}}\\n  {{y!r:.300}}")
 not_reproduced("same kernel for both output orders")
 '''
+
+
+# {{{ random DAGs (C01's "all DAGs over ..." approximated by seeded sampling)
+
+def random_program(seed, T):
+    """A random DAG with sharing over the inputs a,c:(n,4) b:(4,) m:(4,4);
+    6..12 operations drawn from the element-wise / reduction / einsum /
+    indexing / joining repertoire; 1..3 outputs.  Deterministic in *seed*."""
+    import random
+    rnd = random.Random(seed)
+    n = pt.make_size_param("n")
+    a = pt.make_placeholder("a", (n, 4), np.float64)
+    c = pt.make_placeholder("c", (n, 4), np.float64)
+    b = pt.make_placeholder("b", (4,), np.float64)
+    m = pt.make_placeholder("m", (4, 4), np.float64)
+    pool = {"n4": [a, c], "4": [b], "44": [m], "n": [], "4n": [], "n2": [],
+            "s": []}
+    made = []
+
+    def pick(kind):
+        return rnd.choice(pool[kind]) if pool[kind] else None
+
+    def add(kind, x):
+        x = T(len(made), x)
+        pool[kind].append(x)
+        made.append((kind, x))
+    nops = rnd.randint(6, 12)
+    tries = 0
+    while len(made) < nops and tries < 200:
+        tries += 1
+        op = rnd.choice(["add", "mul", "sub", "scal", "bcast", "where", "max",
+                         "sin", "exp", "sumr", "maxr", "mat", "mv", "roll",
+                         "tr", "slice", "concat", "stack0", "outer", "sumn",
+                         "addn", "sum4n", "neg", "cmpwhere"])
+        x, y = pick("n4"), pick("n4")
+        if op == "add":
+            add("n4", x + y)
+        elif op == "mul":
+            add("n4", x * y)
+        elif op == "sub":
+            add("n4", x - y)
+        elif op == "scal":
+            add("n4", x * rnd.choice([2, 0.5, -3]) + rnd.choice([1, 2.5]))
+        elif op == "bcast":
+            add("n4", x + pick("4"))
+        elif op == "where":
+            add("n4", pt.where(pt.greater(x, y), x, y * 2))
+        elif op == "cmpwhere":
+            add("n4", pt.where(pt.logical_and(pt.less(x, 1), pt.greater(y, 0)),
+                               x, 0.0))
+        elif op == "max":
+            add("n4", pt.maximum(x, y))
+        elif op == "sin":
+            add("n4", pt.sin(x))
+        elif op == "exp":
+            add("n4", pt.exp(x) if rnd.random() < 0.5 else pt.abs(x))
+        elif op == "neg":
+            add("n4", -x)
+        elif op == "sumr":
+            add("n", pt.sum(x, axis=1))
+        elif op == "maxr":
+            add("n", pt.amax(x, axis=1))
+        elif op == "mat":
+            add("n4", x @ pick("44"))
+        elif op == "mv":
+            add("n", x @ pick("4"))
+        elif op == "roll":
+            add("n4", pt.roll(x, rnd.choice([1, -1, 2]), axis=1))
+        elif op == "tr":
+            add("4n", pt.transpose(x))
+        elif op == "slice":
+            add("n2", x[:, rnd.choice([slice(1, 3), slice(0, 4, 2),
+                                       slice(3, 1, -1)])])
+        elif op == "concat" and pool["n2"]:
+            add("n4", pt.concatenate([pick("n2"), pick("n2")], axis=1))
+        elif op == "stack0":
+            add("44", pt.stack([pick("4"), pick("4"), pick("4"), pick("4")]))
+        elif op == "outer" and pool["n"]:
+            add("n4", pt.einsum("i,j->ij", pick("n"), pick("4")))
+        elif op == "sumn" and pool["n"]:
+            add("n", pick("n") + pick("n") * 2)
+        elif op == "addn" and pool["n"]:
+            add("n4", x + pt.expand_dims(pick("n"), 1))
+        elif op == "sum4n" and pool["4n"]:
+            add("n", pt.sum(pick("4n"), axis=0))
+    nout = rnd.randint(1, 3)
+    cands = [x for _k, x in made]
+    outs = {}
+    for i in range(nout):
+        outs[f"out{i}"] = cands[-1 - i] if i < len(cands) else cands[0]
+    return outs
+
+
+def random_tagger(seed, tier):
+    import random
+
+    from pytato.tags import ImplInlined, ImplStored
+    from pytato.target.loopy import ImplSubstitution
+    rnd = random.Random(seed * 7919 + 13)
+    choice = {}
+
+    def T(k, x):
+        if k not in choice:
+            choice[k] = rnd.choice([None, None, ImplStored(),
+                                    ImplSubstitution(), ImplInlined()])
+        return x if choice[k] is None else x.tagged(choice[k])
+    return T
+
+
+def _install_random():
+    import os
+    base_seed = int(os.environ.get("VERIF_SEED", "1") or 1)
+
+    class RandomKernels(KernelMeaning):
+        name = "kernel.random"
+        max_paths = 20
+
+        def instances(self, tier):
+            k = 48 if tier != "thorough" else 400
+            out = []
+            for i in range(k):
+                s = base_seed * 100000 + i
+                out.append(dict(label=f"seed={s};untagged", prog=f"random:{s}",
+                                tagging="none"))
+                out.append(dict(label=f"seed={s};random-tags",
+                                prog=f"random:{s}", tagging=f"random:{s}"))
+            return out
+
+        def canaries(self, tier):
+            return []
+    contract(RandomKernels)
+
+
+_install_random()
+
+# }}}
